@@ -296,7 +296,7 @@ impl<V> Item<V> {
 pub(crate) struct CacheProcessor<V, U, CB, S> {
     pub(crate) insert_buf_rx: Receiver<Item<V>>,
     pub(crate) stop_rx: Receiver<()>,
-    pub(crate) clear_rx: UnboundedReceiver<()>,
+    pub(crate) clear_rx: UnboundedReceiver<WaitGroup>,
     pub(crate) metrics: Arc<Metrics>,
     pub(crate) store: Arc<ShardedMap<V, U, S, S>>,
     pub(crate) policy: Arc<LFUPolicy<S>>,
@@ -356,7 +356,7 @@ pub struct Cache<
 
     pub(crate) stop_tx: Sender<()>,
 
-    pub(crate) clear_tx: UnboundedSender<()>,
+    pub(crate) clear_tx: UnboundedSender<WaitGroup>,
 
     pub(crate) callback: Arc<CB>,
 
@@ -426,14 +426,13 @@ where
             return Ok(());
         }
 
-        // stop the process item thread.
-        self.clear_tx.send(()).map_err(|e| {
+        // The clear is applied by the processor thread, between two buffered items, so that
+        // it cannot interleave with an item that is being applied.
+        let wg = WaitGroup::new();
+        self.clear_tx.send(wg.add(1)).map_err(|e| {
             CacheError::SendError(format!("fail to send clear signal to working thread {}", e))
         })?;
-
-        self.policy.clear();
-        self.store.clear();
-        self.metrics.clear();
+        wg.wait();
 
         Ok(())
     }
@@ -612,7 +611,7 @@ where
         policy: Arc<LFUPolicy<S>>,
         insert_buf_rx: Receiver<Item<V>>,
         stop_rx: Receiver<()>,
-        clear_rx: UnboundedReceiver<()>,
+        clear_rx: UnboundedReceiver<WaitGroup>,
         metrics: Arc<Metrics>,
         callback: Arc<CB>,
     ) -> Self {
@@ -644,9 +643,12 @@ where
                         tracing::error!("fail to handle insert event: {}", e);
                     }
                 },
-                recv(self.clear_rx) -> _ => {
+                recv(self.clear_rx) -> msg => {
                     if let Err(e) = self.handle_clear_event() {
                         tracing::error!("fail to handle clear event: {}", e);
+                    }
+                    if let Ok(wg) = msg {
+                        wg.done();
                     }
                 },
                 recv(ticker) -> msg => {
@@ -654,14 +656,24 @@ where
                         tracing::error!("fail to handle cleanup event: {}", e);
                     }
                 },
-                recv(self.stop_rx) -> _ => return Ok(()),
+                recv(self.stop_rx) -> _ => {
+                    // nobody may be left waiting for a clear that will not happen
+                    while let Ok(wg) = self.clear_rx.try_recv() {
+                        wg.done();
+                    }
+                    return Ok(());
+                },
             }
         })
     }
 
     #[inline]
     pub(crate) fn handle_clear_event(&mut self) -> Result<(), CacheError> {
-        CacheCleaner::new(self).clean()
+        let res = CacheCleaner::new(self).clean();
+        self.policy.clear();
+        self.store.clear();
+        self.metrics.clear();
+        res
     }
 
     #[inline]
